@@ -134,6 +134,36 @@ def object_payload(ctx):
     ctx.require(sets.get('self.encoding') == 'self._address_obj.encoding', q, 'encoding is not taken from the address object', blocks[0])
 
 
+@PROP.obligation('C05.hdkey-fresh-address', canaries=[
+    mut.replace_expr('transactions', 'Output.__init__', 'address.address()', 'address.address_obj.address', 'output address taken from the cached Address of the key'),
+])
+def hdkey_fresh_address(ctx):
+    """Output.__init__, HDKey destination: HDKey.address_obj is a cache that holds whatever Address was computed last (possibly a
+    non-default one the caller looked at before). The branch must first call address.address() - which recomputes the key's default
+    address and refreshes the cache - and only then read address.address_obj; otherwise the output reports an address of one type and
+    carries the script of another."""
+    q = 'transactions:Output.__init__'
+    fn = ctx.repo.func(q)
+    br = [n for n in ast.walk(fn) if isinstance(n, ast.If) and norm(n.test) == 'isinstance(address, HDKey)']
+    if len(br) != 1:
+        ctx.undecided('Output.__init__: HDKey branch not found')
+    order = []
+    for i, st_ in enumerate(br[0].body):
+        for c in ast.walk(st_):
+            if isinstance(c, ast.Call) and norm(c.func) == 'address.address' and not c.args and not c.keywords:
+                order.append((i, 'recompute'))
+            elif isinstance(c, ast.Attribute) and norm(c) == 'address.address_obj':
+                order.append((i, 'read-cache'))
+    ctx.saw('HDKey branch: %s' % order)
+    reads = [i for i, k in order if k == 'read-cache']
+    calls = [i for i, k in order if k == 'recompute']
+    if not reads:
+        ctx.unsure('%s: the HDKey branch does not read address.address_obj' % q)
+    elif not calls or min(calls) > min(reads):
+        ctx.violate(q, 'the HDKey branch reads the cached address.address_obj without recomputing the default address first', br[0],
+                    'after key.address(encoding=..., script_type=...) was viewed, Output(value, key) reports that address but carries the default script')
+
+
 @PROP.obligation('C05.object-network', canaries=[
     mut.replace_expr('transactions', 'Transaction.add_output', 'address.network.name != self.network.name', 'False', 'network comparison for address objects disabled'),
 ])
